@@ -25,6 +25,8 @@ import (
 
 	"go.uber.org/multierr"
 
+	"go.opentelemetry.io/collector/connector"
+	"go.opentelemetry.io/collector/connector/xconnector"
 	"go.opentelemetry.io/collector/consumer"
 	"go.opentelemetry.io/collector/consumer/xconsumer"
 	"go.opentelemetry.io/collector/internal/fanoutconsumer"
@@ -32,6 +34,7 @@ import (
 	"go.opentelemetry.io/collector/pdata/pmetric"
 	"go.opentelemetry.io/collector/pdata/pprofile"
 	"go.opentelemetry.io/collector/pdata/ptrace"
+	"go.opentelemetry.io/collector/pipeline"
 	"go.opentelemetry.io/collector/verifharness/lib/driver"
 	"go.opentelemetry.io/collector/verifharness/lib/kit"
 )
@@ -234,6 +237,86 @@ func newFanout(sig kit.Signal, cs []*tc) kit.Next {
 	}
 }
 
+// front says through what the payload reaches the consumers: the fan-out consumer directly, or a
+// connector router (connector.NewLogsRouter …, public API) over the same consumers — its default
+// consumer, or the consumer it returns for a route of one / two pipeline ids.
+type front struct {
+	Kind  string `json:"kind"`            // fanout | router-default | router-one | router-two
+	Route []int  `json:"route,omitempty"` // indices of the routed consumers (router-one / router-two)
+}
+
+func pid(sig kit.Signal, i int) pipeline.ID {
+	id, err := kit.ParsePipelineID(fmt.Sprintf("%s/c%d", sig, i))
+	if err != nil {
+		panic(err)
+	}
+	return id
+}
+
+// newFront builds the consumer under test; routed[i] tells whether consumer i must be invoked.
+func newFront(sig kit.Signal, cs []*tc, fr front) (kit.Next, []bool, error) {
+	routed := make([]bool, len(cs))
+	if fr.Kind == "fanout" || fr.Kind == "router-default" {
+		for i := range routed {
+			routed[i] = true
+		}
+	}
+	if fr.Kind == "fanout" {
+		return newFanout(sig, cs), routed, nil
+	}
+	var ids []pipeline.ID
+	for _, i := range fr.Route {
+		routed[i] = true
+		ids = append(ids, pid(sig, i))
+	}
+	switch sig {
+	case kit.Logs:
+		m := map[pipeline.ID]consumer.Logs{}
+		for i, c := range cs {
+			m[pid(sig, i)] = c
+		}
+		r := connector.NewLogsRouter(m)
+		if fr.Kind == "router-default" {
+			return kit.NextLogs(r), routed, nil
+		}
+		c, err := r.Consumer(ids...)
+		return kit.NextLogs(c), routed, err
+	case kit.Traces:
+		m := map[pipeline.ID]consumer.Traces{}
+		for i, c := range cs {
+			m[pid(sig, i)] = c
+		}
+		r := connector.NewTracesRouter(m)
+		if fr.Kind == "router-default" {
+			return kit.NextTraces(r), routed, nil
+		}
+		c, err := r.Consumer(ids...)
+		return kit.NextTraces(c), routed, err
+	case kit.Metrics:
+		m := map[pipeline.ID]consumer.Metrics{}
+		for i, c := range cs {
+			m[pid(sig, i)] = c
+		}
+		r := connector.NewMetricsRouter(m)
+		if fr.Kind == "router-default" {
+			return kit.NextMetrics(r), routed, nil
+		}
+		c, err := r.Consumer(ids...)
+		return kit.NextMetrics(c), routed, err
+	default:
+		m := map[pipeline.ID]xconsumer.Profiles{}
+		for i, c := range cs {
+			m[pid(sig, i)] = c
+		}
+		r := xconnector.NewProfilesRouter(m)
+		if fr.Kind == "router-default" {
+			return kit.NextProfiles(r), routed, nil
+		}
+		c, err := r.Consumer(ids...)
+		return kit.NextProfiles(c), routed, err
+	}
+}
+
 type l1Case struct {
 	Signal   kit.Signal `json:"signal"`
 	N        int        `json:"consumers"`
@@ -242,6 +325,8 @@ type l1Case struct {
 	Async    string     `json:"async_mask"`
 	ReadOnly bool       `json:"read_only_input"`
 	Context  ctxMode    `json:"context"`
+	Front    front      `json:"front"`
+	Shape    string     `json:"payload_shape"`
 	Payload  int64      `json:"payload_seed"`
 	Problems []string   `json:"problems,omitempty"`
 }
@@ -271,7 +356,7 @@ func shape(mask, n int) string { // low-cardinality class of a capability vector
 	return "mixed"
 }
 
-func l1(c *driver.Ctx, sig kit.Signal, n, mask, failMask int, ro bool, cm ctxMode, pseed int64) {
+func l1(c *driver.Ctx, sig kit.Signal, n, mask, failMask int, ro bool, cm ctxMode, fr front, pseed int64) {
 	c.Eval()
 	rng := rand.New(rand.NewSource(pseed))
 	asyncMask := rng.Intn(1 << n)
@@ -284,32 +369,49 @@ func l1(c *driver.Ctx, sig kit.Signal, n, mask, failMask int, ro bool, cm ctxMod
 		cs[i] = &tc{idx: i, mutates: mask>>i&1 == 1, async: asyncMask>>i&1 == 1, wg: &wg, scen: sc, ord: -1}
 		if failMask>>i&1 == 1 {
 			cs[i].fail = fmt.Errorf("injected failure of consumer %d", i)
-			injected = append(injected, cs[i].fail)
 		}
 	}
-	orig := kit.NewPayload(sig, kit.Msg{Tag: "l1"}, rng)
+	// payload shape: 40 % with items, 15 % each completely empty / resource-only / scope-only /
+	// container-only (metric without data points, profile without samples)
+	shp := "items"
+	if x := rng.Intn(20); x >= 8 {
+		shp = kit.PayloadShapes[1+(x-8)/3]
+	}
+	orig := kit.NewShapedPayload(sig, shp, kit.Msg{Tag: "l1"}, rng)
 	if ro {
 		orig.MarkReadOnly()
 	}
 	sent := orig.Marshal()
-	f := newFanout(sig, cs)
+	f, routed, ferr := newFront(sig, cs, fr)
+	if ferr != nil {
+		c.Violation("router-error", fmt.Sprintf("router refused a route over connected pipelines %v: %v", fr.Route, ferr), fr, "level", "L1", "signal", string(sig), "front", fr.Kind)
+		return
+	}
+	for i, x := range cs {
+		if routed[i] && x.fail != nil {
+			injected = append(injected, x.fail)
+		}
+	}
 	advertised := f.Capabilities().MutatesData
 	var err error
 	sc.arm()
 	pv, stack := driver.Catch(func() { err = f.Consume(sc.base, orig) })
 	wg.Wait()
 
-	w := l1Case{Signal: sig, N: n, Mutating: bits(mask, n), Failing: bits(failMask, n), Async: bits(asyncMask, n), ReadOnly: ro, Context: cm, Payload: pseed}
-	sg := []string{"level", "L1", "signal", string(sig), "vector", shape(mask, n), "ro_input", fmt.Sprint(ro), "ctx", cm.label()}
+	w := l1Case{Signal: sig, N: n, Mutating: bits(mask, n), Failing: bits(failMask, n), Async: bits(asyncMask, n), ReadOnly: ro, Context: cm, Front: fr, Shape: shp, Payload: pseed}
+	sg := []string{"level", "L1", "signal", string(sig), "vector", shape(mask, n), "ro_input", fmt.Sprint(ro), "ctx", cm.label(), "front", fr.Kind, "payload", shp}
 	vio := func(sub, what string, extra ...string) {
 		w.Problems = append(w.Problems, what)
 		c.Violation(sub, what, w, append(append([]string(nil), sg...), extra...)...)
 	}
 	if n >= 2 {
-		c.Nontrivial("L1", sig, n, mask, ro, failMask, cm.label())
+		c.Nontrivial("L1", sig, n, mask, ro, failMask, cm.label(), fr.Kind, fr.Route)
 	}
 	c.Observe("L1_cases", 1)
 	c.Observe("L1_cases_ctx:"+cm.Kind, 1)
+	c.Observe("L1_cases_front:"+fr.Kind, 1)
+	c.Observe("L1_cases_payload:"+shp, 1)
+	c.Distinct("L1_payload_shape_x_vector", sig, shp, n, mask, ro, fr.Kind)
 	for _, x := range cs {
 		if x.calls > 0 && x.deadAtCall {
 			c.Observe("L1_consumers_invoked_with_done_context", 1)
@@ -331,12 +433,18 @@ func l1(c *driver.Ctx, sig kit.Signal, n, mask, failMask int, ro bool, cm ctxMod
 		return
 	}
 	nro := 0
-	for _, x := range cs {
-		if !x.mutates {
+	for i, x := range cs {
+		if !x.mutates && routed[i] {
 			nro++
 		}
 	}
-	for _, x := range cs {
+	for i, x := range cs {
+		if !routed[i] {
+			if x.calls != 0 {
+				vio("invocation", fmt.Sprintf("consumer %d is not on the route %v but was invoked %d times", x.idx, fr.Route, x.calls), "problem", "off-route")
+			}
+			continue
+		}
 		if x.calls != 1 {
 			vio("invocation", fmt.Sprintf("consumer %d of %d was invoked %d times (failing=%s, context %s, context error at return: %v)", x.idx, n, x.calls, bits(failMask, n), cm.label(), sc.base.Err()), "problem", fmt.Sprintf("calls-%d", min(x.calls, 2)))
 			continue
@@ -409,8 +517,8 @@ func l1(c *driver.Ctx, sig kit.Signal, n, mask, failMask int, ro bool, cm ctxMod
 	}
 	// an undeclared mutation of data shared by several readers panics and changes nothing
 	if nro >= 2 {
-		for _, x := range cs {
-			if x.mutates || x.calls != 1 {
+		for i, x := range cs {
+			if x.mutates || x.calls != 1 || !routed[i] {
 				continue
 			}
 			before := x.pl.Marshal()
@@ -457,7 +565,50 @@ func runL1(c *driver.Ctx) {
 								if !c.Mine(g) {
 									continue
 								}
-								l1(c, sig, n, mask, failMask, ro, cm, c.Seed*1000003+g)
+								l1(c, sig, n, mask, failMask, ro, cm, front{Kind: "fanout"}, c.Seed*1000003+g)
+							}
+						}
+					}
+				}
+			}
+		}
+	}
+}
+
+// runL1Routers: the same oracle with a connector router in front of the consumers: its default
+// consumer and the consumers it returns for every route of one id and of two ids; all capability
+// vectors × mutable / read-only input × {no failure, one seeded failing subset}; live context.
+func runL1Routers(c *driver.Ctx) {
+	rounds := int64(c.N(1, 16))
+	if c.Variant == "race" {
+		rounds = int64(c.N(1, 5))
+	}
+	g := int64(500_000_000)
+	live := ctxMode{"live", "", -1}
+	for round := int64(0); round < rounds; round++ {
+		for _, sig := range kit.Signals {
+			for n := 1; n <= 5; n++ {
+				fronts := []front{{Kind: "router-default"}}
+				for i := 0; i < n; i++ {
+					fronts = append(fronts, front{Kind: "router-one", Route: []int{i}})
+					for j := i + 1; j < n; j++ {
+						fronts = append(fronts, front{Kind: "router-two", Route: []int{i, j}})
+					}
+				}
+				for mask := 0; mask < 1<<n; mask++ {
+					for _, ro := range []bool{false, true} {
+						for _, fr := range fronts {
+							for f := 0; f < 2; f++ {
+								g++
+								if !c.Mine(g) {
+									continue
+								}
+								seed := c.Seed*1000003 + g
+								failMask := 0
+								if f == 1 {
+									failMask = 1 + int(uint64(seed)*2654435761%uint64(1<<n-1))
+								}
+								l1(c, sig, n, mask, failMask, ro, live, fr, seed)
 							}
 						}
 					}
@@ -533,6 +684,10 @@ func l2(c *driver.Ctx, rng *rand.Rand) {
 		opt.Signals = opt.Signals[:1]
 	}
 	t := kit.GenTopology(rng, opt)
+	roRouting := rng.Intn(3) == 0
+	if roRouting {
+		addReadOnlyRouting(rng, t, opt.Signals)
+	}
 	yaml := t.YAML()
 	w := l2Witness{YAML: yaml}
 	env := kit.NewEnv(kit.Options{})
@@ -543,6 +698,7 @@ func l2(c *driver.Ctx, rng *rand.Rand) {
 		advertised bool
 		err        error
 		ctx        string
+		shape      string
 	}
 	var injs []*injection
 	var running bool
@@ -561,7 +717,12 @@ func l2(c *driver.Ctx, rng *rand.Rand) {
 				return
 			}
 			for _, in := range env.Injectors() {
-				j := &injection{in: in, orig: kit.NewPayload(in.Signal, kit.Msg{Tag: in.Tag()}, rng), advertised: in.Next.Capabilities().MutatesData}
+				// payload shape: half with items, else resource-only / scope-only / container-only
+				shp := "items"
+				if x := rng.Intn(6); x >= 3 {
+					shp = kit.PayloadShapes[x-1]
+				}
+				j := &injection{in: in, orig: kit.NewShapedPayload(in.Signal, shp, kit.Msg{Tag: in.Tag()}, rng), advertised: in.Next.Capabilities().MutatesData, shape: shp}
 				j.sent = j.orig.Marshal()
 				injs = append(injs, j)
 				// the request context of the receiver: live, already cancelled, or past its deadline.
@@ -709,10 +870,21 @@ func l2(c *driver.Ctx, rng *rand.Rand) {
 			vio("marker-crossed", fmt.Sprintf("%s received a payload already carrying the marker of %v", d.Exporter, ms), "exporter", mode(mutating), "when", "at-call")
 		}
 	}
+	// payloads a connector marked read-only and sent to several routes in turn: nobody may change them
+	for _, r := range env.Retained() {
+		c.Observe("L2_readonly_connector_payloads", 1)
+		if !bytes.Equal(r.AtSend, r.AtEnd) {
+			vio("original-changed", fmt.Sprintf("the read-only payload retained by routing connector %s changed after it was consumed through its routes (markers now %v)", r.Key, kit.MarkersIn(r.AtEnd)), "advertised", "read-only-connector-payload")
+		}
+	}
+	if roRouting {
+		c.Observe("L2_collectors_with_readonly_route_sequence", 1)
+	}
 	// the receiver's original
 	for _, j := range injs {
 		c.Observe("L2_injections", 1)
 		c.Observe("L2_injections_ctx:"+j.ctx, 1)
+		c.Observe("L2_injections_payload:"+j.shape, 1)
 		end := j.orig.Marshal()
 		if !j.advertised {
 			c.Observe("L2_originals_checked_unchanged", 1)
@@ -732,6 +904,59 @@ func l2(c *driver.Ctx, rng *rand.Rand) {
 			vio("error-aggregation", fmt.Sprintf("receiver %s got %v although no failing exporter is reachable", j.in.Tag(), j.err), "problem", "spurious")
 		}
 	}
+}
+
+// addReadOnlyRouting appends source pipeline -> routing connector -> 2–3 downstream pipelines. The
+// connector marks its outgoing payload read-only and sends that same payload to several routes in turn:
+// Consumer(oneID), Consumer(id1,id2) and the default consumer, in a seeded order. The downstream
+// pipelines use the pool processors / exporters, which do or do not declare (and perform) mutation.
+func addReadOnlyRouting(rng *rand.Rand, t *kit.Topology, sigs []kit.Signal) {
+	s := sigs[rng.Intn(len(sigs))]
+	d := s
+	typ := []string{"kconn", "ksame"}[rng.Intn(2)]
+	if rng.Intn(4) == 0 {
+		d = kit.Signals[rng.Intn(4)]
+		typ = "kconn"
+	}
+	id := typ + "/ro"
+	cfg := map[string]any{"mark_read_only": true}
+	if s == d && rng.Intn(2) == 0 {
+		cfg["mode"] = "mutate"
+	}
+	pool := func(prefix string, names []string, min int) []string {
+		var out []string
+		for _, i := range rng.Perm(len(names))[:min+rng.Intn(len(names)-min)] {
+			out = append(out, prefix+names[i])
+		}
+		return out
+	}
+	def := func(m map[string]map[string]any, ids []string) []string {
+		for _, x := range ids {
+			if _, ok := m[x]; !ok {
+				m[x] = nil
+			}
+		}
+		return ids
+	}
+	t.Receivers["krecv/1"] = nil
+	t.Pipelines = append(t.Pipelines, kit.Pipeline{Signal: s, Name: "ro_src", Receivers: []string{"krecv/1"},
+		Processors: def(t.Processors, pool("kproc/", []string{"a", "b", "c"}, 0)), Exporters: []string{id}})
+	var dests []string
+	for k, n := 0, 2+rng.Intn(2); k < n; k++ {
+		p := kit.Pipeline{Signal: d, Name: fmt.Sprintf("ro_d%d", k), Receivers: []string{id},
+			Processors: def(t.Processors, pool("kproc/", []string{"a", "b", "c"}, 0)), Exporters: def(t.Exporters, pool("kexp/", []string{"1", "2", "3"}, 1))}
+		t.Pipelines = append(t.Pipelines, p)
+		dests = append(dests, p.ID())
+	}
+	perm := rng.Perm(len(dests))
+	seq := [][]string{{dests[perm[0]]}, {dests[perm[1]], dests[perm[0]]}, {"*"}}
+	if len(dests) > 2 && rng.Intn(2) == 0 {
+		seq = append(seq, []string{dests[perm[2]]})
+	}
+	rng.Shuffle(len(seq), func(i, j int) { seq[i], seq[j] = seq[j], seq[i] })
+	seq = seq[:2+rng.Intn(len(seq)-1)]
+	cfg["route_sequence"] = map[string]any{string(d): seq}
+	t.Connectors[id] = cfg
 }
 
 func mode(mutating bool) string {
@@ -757,18 +982,22 @@ func runL2(c *driver.Ctx) {
 		n = int64(c.N(150, 8000))
 	}
 	for i := int64(0); i < n; i++ {
-		if !c.Want(1_000_000 + i) {
+		if !c.Want(100_000_000 + i) {
 			continue
 		}
-		l2(c, c.CaseRand(1_000_000+i))
+		l2(c, c.CaseRand(100_000_000+i))
 	}
 }
 
 func run(c *driver.Ctx) {
-	if c.Only < 1_000_000 {
+	// case index ranges (for --replay): L1 fan-out < 100 M <= L2 < 500 M <= L1 routers
+	if c.Only < 100_000_000 {
 		runL1(c)
 	}
-	if c.Only < 0 || c.Only >= 1_000_000 {
+	if c.Only < 0 || c.Only >= 500_000_000 {
+		runL1Routers(c)
+	}
+	if c.Only < 0 || (c.Only >= 100_000_000 && c.Only < 500_000_000) {
 		runL2(c)
 	}
 }
